@@ -79,7 +79,9 @@ def hierarchy_post(self, preds, pre):
             if fwd(inner) != fwd(cur):
                 return 'hierarchy: exiting block %s of region %s has targets %r, the region has %r' % (inner.name, rname, fwd(inner), fwd(cur))
             bj, bb = before
-            if tuple(inner.backedges) != bb or [i for i, t in enumerate(inner._jump_targets) if t in inner.backedges] != [i for i, t in enumerate(bj) if t in bb]:
+            same_len = len(inner._jump_targets) == len(bj)
+            if tuple(inner.backedges) != bb or [t for t in inner._jump_targets if t in inner.backedges] != [t for t in bj if t in bb] \
+                    or (same_len and [i for i, t in enumerate(inner._jump_targets) if t in inner.backedges] != [i for i, t in enumerate(bj) if t in bb]):
                 return 'hierarchy: back edges of exiting block %s moved: %r/%r -> %r/%r' % (inner.name, bj, bb, inner._jump_targets, inner.backedges)
             cur = inner
     return None
